@@ -187,6 +187,21 @@ func (w *World) Drain(thread string, q *driver.CommandQueue, submitted ...string
 	}
 }
 
+// DrainShared is Drain for a queue that other threads enqueue on at the same time: the queue need not be empty
+// when the call returns (commands submitted by others after the moment of emptiness may be there). That the
+// commands THIS thread submitted before the call have completed is judged by their effects (the caller compares
+// what its device-to-host copy returned): the driver's completion hook fires after the dequeue that releases the
+// waiter, so the command trace cannot be used for this.
+func (w *World) DrainShared(thread string, q *driver.CommandQueue, submitted ...string) {
+	w.mu.Lock()
+	w.draining[thread] = q
+	w.mu.Unlock()
+	w.Driver.DrainCommandQueue(q)
+	w.mu.Lock()
+	delete(w.draining, thread)
+	w.mu.Unlock()
+}
+
 // CheckOrder checks "one at a time, in submission order" for the commands of
 // one queue (ids in submission order) against the command trace.
 func (w *World) CheckOrder(queue string, ids []string) {
